@@ -1029,8 +1029,6 @@ func foreignBytes(r *ev.Run) {
 
 func main() {
 	r := ev.Start("C01", "exploration")
-	r.Require("roundtrip_ok", "trunc_rejected", "splice_rejected", "safemath_exact", "safemath_overflow", "parse_accept", "parse_reject",
-		"varuint_bytes_accept", "varuint_bytes_reject")
 
 	nSafe := safeMath(r)
 	nParse := parseHelpers(r)
@@ -1068,6 +1066,10 @@ func main() {
 	r.Sample(map[string]any{"alphabet_size": len(full), "first_values": seqString(full[:8])})
 	r.Assume("byte contents limited to all-00, all-FF and a fixed pattern; integer values limited to width boundaries",
 		"decoding bytes that no encoder produces (bool bytes 2..255, non-minimal var-uints) is exercised for panic-freedom and cross-decoder agreement of var-uints only; the bool decoders are known to differ there (zero-copy rejects, streaming accepts) which the statement does not cover")
+	if r.NViolations() == 0 { // vacuity guard; a run that already found violations reports those (exit 1), not exit 2
+		r.Require("roundtrip_ok", "trunc_rejected", "splice_rejected", "safemath_exact", "safemath_overflow", "parse_accept", "parse_reject",
+		"varuint_bytes_accept", "varuint_bytes_reject")
+	}
 	r.Finish(map[string]any{
 		"rule":                  rule + "; each: both encoders byte-identical, both decoders exact, EVERY truncation point, every oversize length-prefix splice (remaining+1, 2^31, 2^32-1, 2^63, 2^64-1, wrap-to-0/1); a case = kind-sequence shape",
 		"sequences":             tot.seqs,
